@@ -8,7 +8,13 @@ PATCH="$1"; shift
 W=${MUT_W:-/tmp/confirm}; ALT=${MUT_ALT:-/tmp/nvc-alt}; OUT=${MUT_OUT:-/tmp/mutout}; TGT=${MUT_TGT:-/tmp/nvc-alt-target}
 git -C $W checkout -q -- . && git -C $W clean -fdq -e target
 if [ "$PATCH" != "none" ]; then git -C $W apply "$PATCH" || { echo "PATCH DOES NOT APPLY"; exit 3; }; fi
-rm -rf $ALT && mkdir -p $ALT $OUT/evidence && cp -r /verif/nvc/vsched /verif/nvc/nvc /verif/nvc/Cargo.toml /verif/nvc/Cargo.lock /verif/nvc/.cargo $ALT/
+rm -rf $ALT && mkdir -p $ALT $OUT/evidence
+if [ "${MUT_SRC:-worktree}" = "head" ]; then
+  # committed harness sources (the confirmation queue: harness files may be mid-edit in the working tree)
+  git -C /verif archive HEAD nvc | tar -x -C $ALT --strip-components=1
+else
+  cp -r /verif/nvc/vsched /verif/nvc/nvc /verif/nvc/Cargo.toml /verif/nvc/Cargo.lock /verif/nvc/.cargo $ALT/
+fi
 sed -i "s#path = \"/repo/#path = \"$W/#" $ALT/nvc/Cargo.toml
 sed -i "s#path = \"../shims/lock_api\"#path = \"/verif/shims/lock_api\"#" $ALT/Cargo.toml
 sed -i "s#target-dir = \"/verif/target\"#target-dir = \"$TGT\"#" $ALT/.cargo/config.toml
